@@ -4,12 +4,19 @@ import BarterModel.Lemmas.SubRequests
 
 Sub-check of C13. Statements only (proofs go through `Lemmas/SubRequests.lean`). Everything quantifies over
 **every** connector (`e : Exch`, the 15 `ExchangeId`s with a `Connector`), every `(connector, kind)` pair `p` of
-the dynamic builder (`supported`, 21 arms) and **every list** of subscriptions (any length, duplicates allowed):
+the dynamic builder (`supported`, 21 arms) and **every list** of subscriptions (any length, duplicates allowed).
+Hypotheses, where a theorem has them, are exactly: `Decodable e s` for every subscription (the statements that
+compare what the venue reads with what was subscribed: `requests_refine_spec`, `requested_is_subscribed`,
+`requested_perm_subscribed`, `kth_requested`, `requests_determine_topics`, `text_read_refines_spec`);
+`p ∈ supported`, and for Binance `CleanName` of every instrument (`supported_decodable`, `asks_for_venue_names`,
+`map_ids_are_requested_ids`, `id_in_map_iff_requested`); `supports p i.kind` (`asks_for_venue_names`). The other
+theorems have none. Vocabulary:
 
 * `subs : List ESub` — the `ExchangeSub`s handed to `Connector::requests`; `requests e subs : List Wire` — the
   frames it returns, in sending order; `Wire.text` — the JSON text of a frame;
 * `readFrames ws` / `requested ws` — what the venue reads in the frames according to its documented request
-  grammar: per frame a verb and a list of `(channel, market)` topics / all topics in order;
+  grammar: per frame a verb and a list of `(channel, market)` topics / all topics in order; defined on the
+  `Wire` constructor, and equal to the reading of the frame's JSON text by `readText` (`venue_reads_the_text`);
 * `specFrames`, `specTopics`, `specAcks`, `docAcks` — the abstract specification (written from the doc comments
   and the venue payload examples quoted in the repository);
 * `mapper p insts` = `WebSocketSubMapper::map`, `subscribe p insts` = what `WebSocketSubscriber::subscribe` has
@@ -132,8 +139,9 @@ theorem id_in_map_iff_requested (p : Pair) (hp : p ∈ supported) (insts : List 
 theorem map_ids_distinct (p : Pair) (insts : List Inst) : (keysOf (mapper p insts).map).Nodup := by
   simp only [mapper]; rw [keysOf_mapOf]; exact nodup_dedup [] _ List.nodup_nil
 
-/-- … so duplicates ARE merged in the map (while they are not in the request): the map is smaller than the
-request exactly when two subscriptions share an id. -/
+/-- … so duplicates ARE merged in the map (while they are not in the request). Stated as: the map has as many
+entries as the request has topics iff no two subscriptions share an id; the form the name announces (strictly
+smaller iff some id is shared) is `map_strictly_smaller_iff_duplicates` below. -/
 theorem map_smaller_iff_duplicates (p : Pair) (insts : List Inst) :
     (mapper p insts).map.length = (requested (mapper p insts).ws).length ↔
       (insts.map (subscriptionId p)).Nodup := by
@@ -218,7 +226,9 @@ theorem empty_expected (p : Pair) :
   unfold expected BarterModel.SubValidator.expectedResponses
   cases family p.exch <;> rfl
 
-/-- Link to C13S: with nothing expected the validator returns at once, reading nothing from the socket … -/
+/-- Link to C13S: with nothing expected the GENERIC validator (`WebSocketSubValidator`: every connector but
+Bitfinex) returns at once, reading nothing from the socket; for `e = .bitfinex` this instance talks about a
+validator Bitfinex does not use — its own is covered by `empty_validates_at_once_bitfinex` below … -/
 theorem empty_validates_at_once (e : Exch) (h : expected e 0 = 0)
     (frames : List (SubValidator.Frame SubValidator.Resp)) :
     SubValidator.validateGeneric (family e) 0 frames = .ok ([], frames) :=
@@ -368,5 +378,73 @@ example : (requests .okx []).map (fun w => String.ofList w.text) = ["{\"args\":[
 
 example : String.ofList (urlParsed .coinbase) = "wss://ws-feed.execution.coinbase.com/" := by decide +kernel
 example : String.ofList (urlHost (urlConst .binanceSpot)) = "stream.binance.com" := by decide +kernel
+
+/-! ## 7. Added after the review of the sub-check theorems
+
+The venue-side reading of the frame TEXT (`readText`, `Model/SubRequests.lean`) and its link to `Wire.verb` /
+`Wire.topics` and to the specification; the Bitfinex form of `empty_validates_at_once`; the strict form of
+`map_smaller_iff_duplicates`. -/
+
+section Added
+
+/-- **What the venue reads in the TEXT of the frames.** `readText` reads a frame's JSON text (a list of
+characters) with the venue's documented grammar — lexing string literals with their escapes, then taking the
+verb from its key and the topics from the array / members the grammar names — without looking at how the frame
+was built. For every connector, every list of subscriptions and all names (no hypothesis): reading the text of
+each frame `Connector::requests` produces gives that frame's verb and topics, i.e. `Wire.verb` / `Wire.topics`
+(on which the theorems of section 1 are stated) ARE the reading of `Wire.text`. -/
+theorem venue_reads_the_text (e : Exch) (subs : List ESub) :
+    ∀ w ∈ requests e subs, readText (family e) w.text = some (w.verb, w.topics) :=
+  readText_text e subs
+
+/-- **From the raw text to the specification.** For decodable names, reading the JSON texts of the frames, in
+sending order, gives exactly the documented request for the subscriptions. -/
+theorem text_read_refines_spec (e : Exch) (subs : List ESub) (h : ∀ s ∈ subs, Decodable e s) :
+    (requests e subs).map (fun w => readText (family e) w.text) = (specFrames e subs).map some := by
+  rw [← requests_refine_spec e subs h, readFrames, List.map_map]
+  apply List.map_congr_left
+  intro w hw
+  exact venue_reads_the_text e subs w hw
+
+/-- The reader is a function of the text alone: two frames with the same text are read alike. (Not so for
+`Wire.topics` a priori: it is defined on the constructor.) -/
+theorem same_text_same_reading (e : Exch) (a b : List ESub) (w w' : Wire) (hw : w ∈ requests e a)
+    (hw' : w' ∈ requests e b) (ht : w.text = w'.text) : w.verb = w'.verb ∧ w.topics = w'.topics := by
+  have h1 := venue_reads_the_text e a w hw
+  have h2 := venue_reads_the_text e b w' hw'
+  rw [ht, h2] at h1
+  simp only [Option.some.injEq, Prod.mk.injEq] at h1
+  exact ⟨h1.1.symm, h1.2.symm⟩
+
+/-- escapes are read back: a Kraken name with a double quote, a pair with a backslash -/
+example : (readText .kraken (Wire.text (.kraken ["XBT\\USD".toList] "tr\"ade".toList))).map
+      (fun r => (String.ofList r.1, r.2.map fun t => (String.ofList t.chan, String.ofList t.market)))
+    = some ("subscribe", [("tr\"ade", "XBT\\USD")]) := by decide +kernel
+
+/-- the reader does read the text: other texts give other readings, and text that is not a request gives none -/
+example : (readText .bitmex "{\"args\":[\"trade:XBTUSD\",\"x:y:z\"],\"op\":\"unsubscribe\"}".toList).map
+      (fun r => (String.ofList r.1, r.2.map fun t => (String.ofList t.chan, String.ofList t.market)))
+    = some ("unsubscribe", [("trade", "XBTUSD"), ("x", "y:z")]) := by decide +kernel
+example : readText .bitmex "{\"op\":\"subscribe\"}".toList = none := by decide +kernel
+
+/-- `empty_validates_at_once` is about the generic validator (`WebSocketSubValidator`), which Bitfinex does not
+use. The statement for `BitfinexWebSocketSubValidator`: with an empty instrument map it returns at once, the
+map, the buffer and the socket untouched. -/
+theorem empty_validates_at_once_bitfinex (frames : List (SubValidator.Frame SubValidator.BfxEvent)) :
+    SubValidator.validateBfx [] frames = .ok ([], [], frames) := by
+  cases frames <;> simp [SubValidator.validateBfx, SubValidator.runBfx, SubValidator.expectedResponses]
+
+/-- `map_smaller_iff_duplicates` as its name says it: the map is strictly smaller than the request iff two
+subscriptions share an id (it is never larger). -/
+theorem map_strictly_smaller_iff_duplicates (p : Pair) (insts : List Inst) :
+    (mapper p insts).map.length < (requested (mapper p insts).ws).length ↔
+      ¬ (insts.map (subscriptionId p)).Nodup := by
+  rw [← map_smaller_iff_duplicates p insts]
+  have hle : (mapper p insts).map.length ≤ (requested (mapper p insts).ws).length := by
+    simp only [mapper, one_topic_per_subscription, exchangeSubs, List.length_map]
+    exact length_mapOf_le p insts
+  omega
+
+end Added
 
 end BarterModel.Props.C13Q
